@@ -582,6 +582,15 @@ def truth(I, v):
 def iterate(I, v):
     if isinstance(v, (list, tuple)):
         return list(v)
+    if isinstance(v, Phi):
+        # one of two sequences under a condition: when both have the same length the items pair up under that condition
+        try:
+            xa, xb = iterate(I, v.a), iterate(I, v.b)
+        except SymRaise:
+            xa = xb = None
+        if xa is not None and len(xa) == len(xb):
+            return [x if x is y else merge(v.cond, x, y) for x, y in zip(xa, xb)]
+        raise AnalysisError(f"iteration over {v!r} (length unknown)")
     if isinstance(v, GenVal):
         return v.take_all()
     if isinstance(v, Vec):
